@@ -58,6 +58,40 @@ theorem Path.trans {E : List (Node × Node)} {a b c : Node} (h1 : Path E a b) (h
   | single h => exact Path.cons h h2
   | cons h _ ih => exact Path.cons h (ih h2)
 
+theorem mem_expandNC {E : List (Node × Node)} {l : List Node} {a : Node} (h : a ∈ expandNC E l) :
+    a ∈ l ∨ ∃ n, n ∈ l ∧ (n, a) ∈ E := by
+  simp only [expandNC, List.mem_flatMap] at h
+  obtain ⟨n, hn, ha⟩ := h
+  by_cases hc : n.isComp = true
+  · simp only [hc, if_true, List.mem_singleton] at ha
+    subst ha; exact Or.inl hn
+  · simp only [hc] at ha
+    exact Or.inr ⟨n, hn, mem_succOf.mp ha⟩
+
+theorem compNext_path {E : List (Node × Node)} {a b : Node} (h : a ∈ compNext E b) : Path E b a := by
+  simp only [compNext, List.mem_filter] at h
+  have reach1 : ∀ x, x ∈ succOf E b → Path E b x := fun x hx => Path.single (mem_succOf.mp hx)
+  have reach2 : ∀ x, x ∈ expandNC E (succOf E b) → Path E b x := by
+    intro x hx
+    rcases mem_expandNC hx with h1 | ⟨n, hn, hE⟩
+    · exact reach1 x h1
+    · exact (reach1 n hn).trans (Path.single hE)
+  rcases mem_expandNC h.1 with h1 | ⟨n, hn, hE⟩
+  · exact reach2 a h1
+  · exact (reach2 n hn).trans (Path.single hE)
+
+theorem linkedChain_path {E : List (Node × Node)} : ∀ (l : List Node) (a : Node), linkedChain E a l = true →
+    ∀ x, x ∈ l → Path E a x := by
+  intro l
+  induction l with
+  | nil => intro a _ x hx; cases hx
+  | cons b l ih =>
+    intro a h x hx
+    simp only [linkedChain, Bool.and_eq_true, decide_eq_true_eq] at h
+    rcases List.mem_cons.mp hx with rfl | hx'
+    · exact compNext_path h.1
+    · exact (compNext_path h.1).trans (ih b h.2 x hx')
+
 /-! ## collect / deliver -/
 
 theorem collect_mem {f : Node → Option (List (List Node))} {l : List Node} {ws : List (List Node)}
